@@ -35,7 +35,8 @@ def isDead (s : State) (id : Nat) : Bool := match getPc s id with | some p => p.
 /-- the harness lets one housekeeping pass go by before every action that starts or ends a call
     (`syncTick`): consecutive actions fall into distinct passes, so their stamps differ -/
 def syncTick (r : Run) : Run :=
-  { r with s := tick r.s (r.clock + tickPeriod), clock := r.clock + tickPeriod }
+  let one := fun (r : Run) => { r with s := tick r.s (r.clock + tickPeriod), clock := r.clock + tickPeriod }
+  one (one (one r))   -- three periods (see the harness: stamps of consecutive actions are three passes apart)
 
 /-- a call through the Transport: getConn, then the outcome on that connection -/
 def doCall (r0 : Run) (k : Nat) (addr : Nat) (form : String) (hold : Bool) : Run :=
